@@ -25,13 +25,14 @@ CMP_SCOPE = dict(n="2,3", banks="1,2,3", structs="0,0,1,2", amts="1..4", limits=
 TIER = {
     "quick": dict(mc_scopes=["small"], mc_timeout=1500, random_runs=700, probe_runs=12, fork_runs=80,
                   sim_num=250, explore=[CMP_SCOPE], bbonly_runs=25, sweep="small", shuffle_runs=150, seeds=1),
-    "thorough": dict(mc_scopes=["small", "medium", "structs", "four"], mc_timeout=7200, random_runs=12000, probe_runs=150, fork_runs=1500,
-                     sim_num=3000,
+    "thorough": dict(mc_scopes=["small", "medium", "structs", "four"], mc_timeout=7200, random_runs=5000, probe_runs=100, fork_runs=800,
+                     sim_num=1200,
                      explore=[CMP_SCOPE,
-                              dict(n="2,3", banks="1,2,4,7", structs="0,0,1,2;1,0,1,2", amts="-1..8", limits="no"),
-                              dict(n="2,3", banks="1,2,3,5", structs="1,2,0,0;0,0,1,2", amts="1..6", limits="pot"),
-                              dict(n="4", banks="1,2,5", structs="0,0,1,2;1,0,1,2", amts="1..6", limits="no")],
-                     bbonly_runs=100, sweep="full", shuffle_runs=2000, seeds=3),
+                              dict(n="2,3", banks="1,2,4", structs="0,0,1,2;1,0,1,2", amts="-1..6", limits="no"),
+                              dict(n="2,3", banks="2,3,5", structs="1,2,0,0;0,0,1,2", amts="1..6", limits="pot"),
+                              dict(n="4", banks="1,3", structs="0,0,1,2", amts="1..4", limits="no"),
+                              dict(n="2,3", banks="1,2,4,7", structs="0,0,1,2", amts="1..8", limits="no")],
+                     bbonly_runs=100, sweep="full", shuffle_runs=1500, seeds=2),
 }
 
 # antecedents that must have been exercised on the real code for a run to count (non-vacuity)
@@ -316,7 +317,8 @@ def engine_check(prop, tier, seed, work, replay):
 
     # 3. validate every recorded step against the property's clauses (and the precise model)
     files = sorted(dr.files)
-    res = vlib.validate(work, files, "HoldemTrace.tla", [prop], nchunks=max(4, vlib.NCPU // 2), heap="3g")
+    res = vlib.validate(work, files, "HoldemTrace.tla", [prop], nchunks=max(4, vlib.NCPU // 2) if tier == "quick" else 24,
+                        heap="3g" if tier == "quick" else "5g", timeout=7200)
     log("[val] %d lines, %d failed clauses, %d drift lines, %.0fs" % (res["lines"], len(res["viol"]), len(res["drift"]), res["tlc_s"]))
     viols = list(res["viol"])
     allfiles = dict(dr.files)
